@@ -960,18 +960,25 @@ def _monitor(op, out, st):
                         bump('exempt_anderson_ls_illconditioned_window')
                     else:
                         bump('anderson_gamma_ls_independent')
-                        sc = max([abs(v) for v in gs_] + [Fr(1, 2 ** 60)])
+                        # error scale that does not vanish when the exact solution does (p orthogonal to the
+                        # window: γ_exact = 0 while the computed γ is rounding noise of size ε·‖p‖/σ_min):
+                        # |δγ| ≲ ε·cond·(max|γ| + ‖p‖/σ_max) with σ_max ≥ ‖ΔR‖_F/√K
+                        fro = math.sqrt(sum(float(v) ** 2 for col in A['dr'][-K:] for v in col)) or 1.0
+                        pn = math.sqrt(sum(float(v) ** 2 for v in p))
+                        gmax = max([abs(v) for v in gs_] + [Fr(0)])
+                        sc = gmax + Fr(math.sqrt(K) * pn / fro) + Fr(1, 2 ** 60)
                         for i_, (a, b) in enumerate(zip(gam_ls, gs_)):
                             if abs(Fr(a) - b) > Fr(1, 2 ** 30) * Fr(cond) * sc:
                                 return (f'γ_LS[{i_}] = {a!r}, but the least-squares solution of min ‖ΔR γ − p‖ over the '
                                         f'last {K} residual differences (exact rationals, from the op history) is '
                                         f'{float(b)!r} (cond ≈ {cond:.3g})')
-                        # … and the direction from those independent coefficients
+                        # … and the direction from those independent coefficients (error of every α_i is bounded by
+                        # the γ error above, so the scale uses (1 + max|γ| + ‖p‖/σ_max-term)·Σ|x̂_i|, not |α_i|·|x̂_i|)
                         alr = [gs_[0]] + [gs_[i] - gs_[i - 1] for i in range(1, K)] + [1 - gs_[K - 1]]
                         Gr = A['g'][-(K + 1):]
                         for j in range(n):
                             e_ = sum(alr[i] * Fr(Gr[i][j]) for i in range(K + 1)) - Fr(x[j])
-                            mg = sum(abs(alr[i]) * abs(Fr(Gr[i][j])) for i in range(K + 1)) + abs(Fr(x[j]))
+                            mg = (1 + sc) * sum(abs(Fr(Gr[i][j])) for i in range(K + 1)) + abs(Fr(x[j]))
                             if abs(Fr(q[j]) - e_) > Fr(1, 2 ** 30) * Fr(cond) * max(mg, Fr(1, 2 ** 200)):
                                 return (f'AndersonDirection::apply: q[{j}] = {q[j]!r}, but Σ αᵢ x̂ᵢ − x with the independently '
                                         f'computed least-squares coefficients gives {float(e_)!r}')
